@@ -2,7 +2,7 @@
 import vf
 
 ALLV = {"base", "ttl", "ttlN", "hold", "holdN", "peerAS", "local", "rr", "rrCluster", "rrNoId", "rsc", "apRecv", "apSend", "apSend2",
-        "apRecvN", "v6fam", "imp", "imp2", "impN", "exp", "expN", "rm2", "rm3", "only3", "dis", "mp", "active2"}
+        "apRecvN", "v6fam", "imp", "imp2", "impN", "exp", "expN", "rm2", "rm3", "only3", "dis", "mp", "active2", "rmAll", "impB", "expB", "v6exp", "v6imp"}
 INV = ["HistoryFree", "OneSessionPerPeer", "RemovedAreGone"]
 
 
@@ -10,7 +10,7 @@ def run(ctx):
     big = ctx.thorough()
     binp = ctx.build_repo_binary("./cmd/bio-rd", "bio-rd-verif")
     ctx.design("Reload", vf.cfg_text(constants={"Variants": ALLV, "MaxDepth": 99}, invariants=INV, view="View"), label="design")
-    # every ordered pair (old, new) of the 27 configurations: witness per transition of the VIEW-reduced graph
+    # every ordered pair (old, new) of the 32 configurations: witness per transition of the VIEW-reduced graph
     r = ctx.tlc("Reload", vf.cfg_text(constants={"Variants": ALLV, "MaxDepth": 2}, invariants=INV, view="View",
                                       action_constraints=["Emit"]), workers=1, label="all pairs")
     if not r.ok:
@@ -24,9 +24,9 @@ def run(ctx):
     rs = ctx.simulate("Reload", vf.cfg_text(next="NextSim", constants={"Variants": ALLV, "MaxDepth": 5}), num=400 if big else 30, depth=5)
     behs += rs.behaviours
     ctx.exhaustive = True
-    ctx.rule = ("27 configurations (a base of two groups / three neighbours and single-aspect variants: TTL, hold time, peer AS, local "
+    ctx.rule = ("32 configurations (a base of two groups / three neighbours and single-aspect variants: TTL, hold time, peer AS, local "
                 "address, RR client / cluster id, RS client, add-path receive/send per group and per neighbour, extra address family, "
-                "import/export policies per group and neighbour, removed neighbours/groups, disabled, passive); every ordered pair "
+                "import/export policies per group and neighbour, policies of the IPv6 group and of an IPv4 group carrying the IPv6 family, removed neighbours/groups down to none, disabled, passive); every ordered pair "
                 "(old, new) and seeded sequences of 5 are loaded through the real reload path of a hooked bio-rd binary; after every "
                 "reload the peers' effective settings, stored PeerConfig and policy chains must equal Effective(new); the spec's "
                 "Effective itself is first checked against a real fresh start (disagreement = harness error, not a verdict); "
